@@ -129,7 +129,7 @@ def roleOf : Decl → Option Role
       match t with
       | .imp (.var a) (.var b) => if l = "imp-is-pattern" then some (.imp a b) else none
       | .app (.var a) (.var b) => if l = "app-is-pattern" then some (.app a b) else none
-      | .con c args => if l = "imp-is-pattern" ∨ l = "app-is-pattern" then none else (asVars args).map fun vs => .ctor l ⟨c, vs⟩
+      | .con c args => if l = "imp-is-pattern" ∨ l = "app-is-pattern" then none else (asVars args).map fun vs => .ctor l { sym := c, args := vs }
       | _ => none
   | .rule l hyps concl =>
       if l = "proof-rule-prop-1" then
